@@ -559,7 +559,7 @@ def h_compile_calls(w, nthreads):
     return [mk(i) for i in range(nthreads)], finish
 
 
-RENDER_HARNESSES = {"render": h_render, "compile": h_compile, "compile-blocks": h_compile_blocks, "compile-calls": h_compile_calls, "compile-calls-wide": h_compile_calls}
+RENDER_HARNESSES = {"render": h_render, "render-rt": h_render, "compile": h_compile, "compile-blocks": h_compile_blocks, "compile-calls": h_compile_calls, "compile-calls-wide": h_compile_calls}
 
 
 # --------------------------------------------------------------------------
@@ -577,6 +577,9 @@ def trace_prefixes(kind):
             os.path.join(repo, "mako", "lookup.py"),
             "_sub_main_html", "_sub_base_html", "_sub_ns_html", "_sub_inc_html",
         )
+    if kind == "render-rt":
+        # the runtime's own shared state only (namespaces, caches, URI and lookup caches), for a deeper preemption bound
+        return tuple(os.path.join(repo, "mako", f) for f in ("cache.py", "lookup.py", "util.py"))
     if kind in ("compile",):
         return (os.path.join(repo, "mako", "lexer.py"), os.path.join(repo, "mako", "template.py"))
     if kind == "compile-blocks":
@@ -600,7 +603,7 @@ def run_one(spec, prefix, record=False):
     s = sched.Scheduler(prefix, trace_files=trace_prefixes(name) if fine else None, record_trace=record, trace_names=names,
                         trace_calls=name.startswith("compile-calls"), horizon=200000 if name.startswith("compile-calls") else 20000)
     if name in RENDER_HARNESSES:
-        if name == "render":
+        if name in ("render", "render-rt"):
             solos = solo_outputs()
         elif name == "compile-blocks":
             solos = compile_solo(BLOCK_TEXTS, "bsolo")
@@ -669,6 +672,8 @@ def specs(tier):
     if not q:
         out.append(("compile", 2, True, 1))
         out.append(("render", 3, True, 1))
+        out.append(("render-rt", 2, True, 2))  # lookup / cache / util lines only: a deeper bound is affordable
+        out.append(("render-rt", 3, True, 2))
         out.append(("compile", 3, False, 1))
     return out
 
